@@ -5,7 +5,7 @@
    shape) are in Merkle/Tree.v and Merkle/Ref.v; the verifiers transliterated from
    embedded/ahtree/verification.go and embedded/htree/htree.go are in Merkle/Verify.v. *)
 From V Require Import Merkle.Verify Merkle.Sound Merkle.Levels Merkle.Honest Merkle.Exact Merkle.RefEq Merkle.Main.
-From V Require Import Merkle.RefPath Merkle.HExact Merkle.AHT Merkle.AHTArith Merkle.AHTSpec Merkle.AHTInv Merkle.AHTIncl Merkle.AHTCons Merkle.ConsComplete Merkle.ConsExact Merkle.AHTMain Merkle.InclUnique Merkle.LastIncl Merkle.VerifyFixed Merkle.ConsFixed.
+From V Require Import Merkle.RefPath Merkle.HExact Merkle.AHT Merkle.AHTArith Merkle.AHTSpec Merkle.AHTInv Merkle.AHTIncl Merkle.AHTCons Merkle.ConsComplete Merkle.ConsExact Merkle.AHTMain Merkle.InclUnique Merkle.LastIncl Merkle.VerifyFixed Merkle.ConsFixed Merkle.HTree Merkle.HTreeLevels Merkle.HTreeProof.
 
 (* The reference tree over a non-empty list of payloads has exactly those payloads as leaves, in
    order (so `mth L` commits to L and to nothing else). *)
@@ -373,3 +373,50 @@ Theorem C08_consistency_fixed_no_panic :
     verify_consistency_fixed H cproof i j iroot jroot <> Panic.
 Proof. exact verify_consistency_fixed_no_panic. Qed.
 Print Assumptions C08_consistency_fixed_no_panic.
+
+(* ---- htree.BuildWith / htree.InclusionProof (model Merkle/HTree.v: level arrays as BuildWith
+   writes them, the m, n, offset, l, r, layer, index loop) ---- *)
+
+(* htree_root_is_mth: Root() after BuildWith(ds) is the reference tree hash, for every non-empty ds. *)
+Theorem C08_htree_root_is_mth :
+  forall (H : bytes -> bytes) (ds : list bytes),
+    ds <> [] -> ht_root (ht_build H ds) = mth H ds.
+Proof. exact htree_root_is_mth. Qed.
+Print Assumptions C08_htree_root_is_mth.
+
+(* what the level arrays hold: entry x of level t (for every level BuildWith wrote) is the reference
+   tree hash of the digests [x 2^t, min((x+1) 2^t, width)). *)
+Theorem C08_htree_levels_inv :
+  forall (H : bytes -> bytes) (ds : list bytes) (t x : nat),
+    ds <> [] -> (2 ^ t <= length ds)%nat -> (x * 2 ^ t < length ds)%nat ->
+    level_at (ht_build H ds) (N.of_nat t) (N.of_nat x) =
+    Ok (mth H (firstn (Nat.min ((S x) * 2 ^ t) (length ds) - x * 2 ^ t) (skipn (x * 2 ^ t) ds))).
+Proof. exact level_at_ok. Qed.
+Print Assumptions C08_htree_levels_inv.
+
+(* htree_proof_is_honest: InclusionProof(i) never fails for 0 <= i < width, never reads outside what
+   BuildWith wrote, and returns the RFC 6962 audit path = the honest proof. *)
+Theorem C08_htree_proof_is_audit :
+  forall (H : bytes -> bytes) (ds : list bytes) (i : Z),
+    (0 <= i < Z.of_nat (length ds))%Z ->
+    ht_inclusion_proof (ht_build H ds) i = Ok (audit H (mk_tree ds) (Z.to_N i)).
+Proof. exact htree_proof_is_audit. Qed.
+Print Assumptions C08_htree_proof_is_audit.
+
+Theorem C08_htree_proof_is_honest :
+  forall (H : bytes -> bytes) (ds : list bytes) (x : nat),
+    (x < length ds)%nat ->
+    ht_inclusion_proof (ht_build H ds) (Z.of_nat x) = Ok (honest_inclusion_proof H ds (N.of_nat x + 1)).
+Proof. exact htree_proof_is_honest. Qed.
+Print Assumptions C08_htree_proof_is_honest.
+
+(* BuildWith + InclusionProof + VerifyInclusion end to end. *)
+Theorem C08_htree_proof_verifies :
+  forall (H : bytes -> bytes), (forall x, length (H x) = 32%nat) ->
+  forall (ds : list bytes) (x : nat) (d : bytes),
+    nth_error ds x = Some d ->
+    exists terms, ht_inclusion_proof (ht_build H ds) (Z.of_nat x) = Ok terms /\
+      htree_verify_inclusion H (Z.of_nat x) (Z.of_N (ht_width (ht_build H ds))) terms d
+        (ht_root (ht_build H ds)) = true.
+Proof. exact htree_proof_verifies. Qed.
+Print Assumptions C08_htree_proof_verifies.
